@@ -35,7 +35,7 @@ def generate(tier, seed):
         for t in itertools.product(trip, repeat=3):
             if tier == "quick" and rng.random() < 0.5: continue
             exprs.append("(%s %s)" % (op, " ".join(t)))
-        for _ in range(150 if tier == "quick" else 3000):
+        for _ in range(400 if tier == "quick" else 10000):
             n = rng.randint(4, 8)
             exprs.append("(%s %s)" % (op, " ".join(rng.choice(vals) for _ in range(n))))
         for pos in range(3):
@@ -52,7 +52,7 @@ def generate(tier, seed):
     for op in UN:
         for v in vals + BAD + ["2.25", "-2.75", "1e3"]: exprs.append("(%s %s)" % (op, v))
     # random integer arithmetic near the limits, nested
-    for _ in range(2000 if tier == "quick" else 40000):
+    for _ in range(6000 if tier == "quick" else 200000):
         def term(d):
             if d == 0 or rng.random() < 0.3: return rng.choice(vals)
             op = rng.choice(["+", "-", "*", "/", "mod", "max", "min"])
